@@ -286,9 +286,16 @@ def show(spec):
     return what
 
 
-def spec_class(spec):
+def leaf_classes(spec, acc):
     if isinstance(spec, list):
-        return 'array'
+        for s in spec:
+            leaf_classes(s, acc)
+    else:
+        acc.add(spec_class(spec))
+    return acc
+
+
+def spec_class(spec):
     if spec[0] == 'errs':
         return spec[1][0]
     if spec[0] in ('date', 'either'):
@@ -392,7 +399,11 @@ def check_one(env, route, op, a, b):
     commute = not isinstance(a, list) and not isinstance(b, list)
     spec = ref_any(op, a, b)
     got = evaluate(env, route, op, a, b)
-    env.note('%s:%s' % (op, spec_class(spec)))
+    if isinstance(spec, list):
+        for c in leaf_classes(spec, set()):
+            env.note('%s:[%s]' % (op, c))
+    else:
+        env.note('%s:%s' % (op, spec_class(spec)))
     narrow = ['one', route, op, enc(a), enc(b)]
     if not match(spec, got):
         return fail('%s = %s; expected %s' % (describe(route, op, a, b), short(got), short(show(spec))),
@@ -464,7 +475,7 @@ class ArrayScalar(Base):
             'non-trivial = array of length >= 2')
     min_cases = 50
     min_nontrivial = 5000
-    min_classes = 4
+    min_classes = 12
 
     def cases(self, tier, unit):
         maxlen = 3 if tier == 'quick' else 4
